@@ -103,7 +103,19 @@ def sequential_traces(ctx: Ctx, rnd: random.Random, ntraces: int, maxlen: int) -
         if hung:
             break
         i0, a0 = rnd_instant(), (0 if rnd.random() < 0.3 else rnd_ns())
-        clock = FakeClock(_mk_instant(i0), Duration.from_nanoseconds(a0))
+        if rnd.random() < 0.2:
+            # the other public way of making one: FakeClock.from_utc(fields), no auto-advance
+            import datetime as _dt
+
+            base = _dt.datetime(1, 1, 1) + _dt.timedelta(seconds=rnd.randrange(0, 9998 * 365 * 86400))
+            f = rnd.choice([(base.year, base.month, base.day), (base.year, base.month, base.day, base.hour, base.minute),
+                            (base.year, base.month, base.day, base.hour, base.minute, base.second or 30)])
+            clock = FakeClock.from_utc(*f)
+            full = list(f) + [0] * (6 - len(f))
+            i0 = ((_dt.date(full[0], full[1], full[2]).toordinal() - 719163) * 86400 + full[3] * 3600 + full[4] * 60 + full[5]) * 10**9
+            a0 = 0
+        else:
+            clock = FakeClock(_mk_instant(i0), Duration.from_nanoseconds(a0))
         events.append({"op": "init", "t": t, "now": proj.t3_from_ns(i0), "auto": proj.t3_from_ns(a0)})
         for _ in range(rnd.randint(1, maxlen)):
             c = rnd.random()
@@ -125,6 +137,8 @@ def sequential_traces(ctx: Ctx, rnd: random.Random, ntraces: int, maxlen: int) -
                 per = {**proj.UNIT_PER_SEC, **proj.UNIT_PER_DAY}[unit]
                 scale = proj.NPD // (per if unit in proj.UNIT_PER_DAY else 1) if unit in proj.UNIT_PER_DAY else 10**9 // per
                 k = rnd_ns(big=True) // max(scale, 1) if rnd.random() < 0.8 else rnd.randint(-5, 5)
+                if unit == "days" and rnd.random() < 0.3:
+                    k = rnd.choice([-2, -1, 1, 2]) * 16384     # one turn of the 512 x 32-day zone-interval cache
                 if rnd.random() < 0.03:
                     k = rnd.choice([-1, 1]) * 10 ** rnd.randint(25, 40)
                 digs = proj.amount_digits(unit, k)
@@ -161,6 +175,20 @@ def sequential_traces(ctx: Ctx, rnd: random.Random, ntraces: int, maxlen: int) -
                 off = rnd.choice([0, 3600, -3600, 64800, -64800, 19800, rnd.randint(-64800, 64800)])
                 cal = rnd.choice(list(CalendarSystem.ids))
                 zone = DateTimeZone.for_offset(Offset.from_seconds(off))
+                if rnd.random() < 0.4:
+                    # a real zone: the offset is the one the zone has at the instant the wrapped clock is about to return; the
+                    # reference is the zone underneath the provider's interval cache (the cache has its own history)
+                    from pyoda_time import DateTimeZoneProviders
+                    from harness.drivers.zonewalk import t3i as _t3i
+
+                    zone = DateTimeZoneProviders.tzdb[rnd.choice(["Europe/London", "America/New_York", "Australia/Lord_Howe", "Asia/Tehran", "America/Sao_Paulo"])]
+                    try:
+                        nowi = getattr(clock, "_FakeClock__now")
+                        riv = getattr(zone, "_CachedDateTimeZone__time_zone", zone).get_zone_interval(nowi)
+                        off = riv.wall_offset.seconds
+                        ev["iv"] = {"start": _t3i(riv._raw_start), "end": _t3i(riv._raw_end), "wall": off}
+                    except Exception:  # noqa: BLE001
+                        zone = DateTimeZone.for_offset(Offset.from_seconds(off))
                 zc = ZonedClock(clock, zone, CalendarSystem.for_id(cal))
                 ev.update(op="zoned", offset=off, cal=cal, zone=zone.id)
 
